@@ -116,11 +116,12 @@ class Line(Manifold):
         self.u = unit(fix_vec(spec["dir"]))
         self.length = spec["len"] * size
         self.bounded = bool(spec["bounded"])
+        small = spec.get("near_guess")  # anchor this close (x size) to the clamp's initial-guess point p1 (t = 0)
         if self.bounded:
-            t0 = spec["t0"] * size
+            t0 = (small if small is not None else spec["t0"]) * size
             self.box = [t0 - spec["lo"] * size, t0 + spec["hi"] * size]
         else:
-            t0 = spec["t0f"] * self.length
+            t0 = abs(small) * size if small is not None else spec["t0f"] * self.length
             self.box = [0.0, self.length]
         self.p1 = np.asarray(anchor, float) - t0 * self.u
         self.p2 = self.p1 + self.length * self.u
@@ -221,7 +222,8 @@ class Plane(Manifold):
         e1, e2, e3 = frame(spec["normal"], spec["idir"])
         self.n = e1
         self.normal = e1 * spec["nlen"]
-        self.point0 = np.asarray(anchor, float) + size * (spec["off"][0] * e2 + spec["off"][1] * e3)
+        off = spec["off"] if spec.get("near_guess") is None else [spec["near_guess"], 0.37 * spec["near_guess"]]
+        self.point0 = np.asarray(anchor, float) + size * (off[0] * e2 + off[1] * e3)
 
     def make_clamp(self, position):
         import classy_blocks as cb
@@ -421,13 +423,13 @@ class Saddle(Manifold):
         self.e1, self.e2, self.e3 = frame(spec["a"], spec["b"])
         self.c = spec["c"]
         self.size = size
-        u0, v0 = spec["uv0"]
+        u0, v0 = spec["uv0"] if spec.get("near_guess") is None else (spec["near_guess"], -0.61 * spec["near_guess"])
         self.uv0 = [u0, v0]
         self.bounded = bool(spec["bounded"])
         self.box = (
             [[u0 - spec["lo"][0], u0 + spec["hi"][0]], [v0 - spec["lo"][1], v0 + spec["hi"][1]]] if self.bounded else None
         )
-        self.hint = bool(spec.get("hint"))
+        self.hint = bool(spec.get("hint")) and spec.get("near_guess") is None
         self.o = np.asarray(anchor, float) - size * (u0 * self.e1 + v0 * self.e2 + self.c * (u0 * u0 - v0 * v0) * self.e3)
 
     def fn(self, params):
@@ -510,6 +512,11 @@ def build(spec: Dict[str, Any], anchor, size: float) -> Manifold:
 # unconstrained optimum is often outside them; C17 uses wide ones).
 
 _pos = st.floats(0.0, 1.0)
+# distance (x size) of the creation position from the point the clamp's initial guess yields: 1e-6 .. 1e-2, either side
+_near = st.one_of(
+    st.none(),
+    st.tuples(st.floats(-6.0, -2.0), st.sampled_from([1, -1])).map(lambda t: t[1] * 10.0 ** t[0]),
+)
 
 
 def _halfwidths(reach: float):
@@ -521,7 +528,7 @@ def spec_free():
     return st.just({"type": "free"})
 
 
-def spec_line(reach: float = 1.0, bounded=None):
+def spec_line(reach: float = 1.0, bounded=None, near_guess: bool = False):
     hw = _halfwidths(reach)
     return st.fixed_dictionaries(
         {
@@ -531,6 +538,7 @@ def spec_line(reach: float = 1.0, bounded=None):
             "bounded": st.booleans() if bounded is None else st.just(bounded),
             "t0f": _pos,
             "t0": st.floats(-2.0, 2.0),
+            "near_guess": _near if near_guess else st.none(),
             "hw": hw,
         }
     ).map(lambda d: {**{k: v for k, v in d.items() if k != "hw"}, "lo": d["hw"][0], "hi": d["hw"][1]})
@@ -552,7 +560,7 @@ def spec_radial(reach: float = 1.0, bounded=None):
     ).map(lambda d: {**{k: v for k, v in d.items() if k != "hw"}, "lo": d["hw"][0], "hi": d["hw"][1]})
 
 
-def spec_plane():
+def spec_plane(near_guess: bool = False):
     return st.fixed_dictionaries(
         {
             "type": st.just("plane"),
@@ -560,6 +568,7 @@ def spec_plane():
             "idir": vec3,
             "nlen": nlen,
             "off": st.tuples(st.floats(-2.0, 2.0), st.floats(-2.0, 2.0)).map(list),
+            "near_guess": _near if near_guess else st.none(),
         }
     )
 
@@ -608,7 +617,7 @@ def spec_polyline():
     )
 
 
-def spec_surface(reach: float = 1.0, bounded=None):
+def spec_surface(reach: float = 1.0, bounded=None, near_guess: bool = False):
     hw = st.tuples(_halfwidths(reach), _halfwidths(reach))
     return st.fixed_dictionaries(
         {
@@ -619,6 +628,7 @@ def spec_surface(reach: float = 1.0, bounded=None):
             "uv0": st.tuples(st.floats(-0.8, 0.8), st.floats(-0.8, 0.8)).map(list),
             "bounded": st.booleans() if bounded is None else st.just(bounded),
             "hint": st.booleans(),
+            "near_guess": _near if near_guess else st.none(),
             "hw": hw,
         }
     ).map(
